@@ -16,7 +16,9 @@ Matches(r) ==
   \* dials started by the real handlers = dials appended by the action
   /\ Len(dials') = Len(dials) + Len(r.started)
   /\ \A i \in 1..Len(r.started) :
-       LET nw == dials'[Len(dials) + i] IN nw.from = r.started[i].from /\ nw.reason = r.started[i].reason
+       \* (the reason a follow-up dial is labelled with is not C11's business: it has no effect on an idle slot)
+       LET nw == dials'[Len(dials) + i] IN nw.from = r.started[i].from
+                                            /\ (r.ev = "Dial" => nw.reason = r.started[i].reason)
 
 Act(r) ==
   CASE r.ev = "Dial" -> Dial(r.n, r.reason)
